@@ -252,9 +252,12 @@ def gen_config(rng, **force):
         end = w1
     if end.month == 2 and end.day == 29:
         end = end - pd.Timedelta(days=1)   # finding 17 is probed separately
+    crop_kwargs = dict(force.get("crop_kwargs") or {})
+    if "GDDmethod" not in crop_kwargs and rng.random() < 0.12:
+        crop_kwargs["GDDmethod"] = rng.choice([1, 2])        # documented alternatives to the default method 3
     cfg = {"start": start.strftime("%Y/%m/%d"), "end": end.strftime("%Y/%m/%d"),
            "weather": {"file": wfile, "ops": []},
-           "crop": {"name": crop, "planting_date": plant, "harvest_date": None, "kwargs": {}},
+           "crop": {"name": crop, "planting_date": plant, "harvest_date": None, "kwargs": crop_kwargs},
            "off_season": force["off_season"] if "off_season" in force else rng.random() < 0.4}
     # weather perturbations
     r = rng.random()
@@ -369,7 +372,7 @@ def gen_config(rng, **force):
         if cn_now * (1 + fld["curve_number_adj_pct"] / 100.0) > 100:
             fld["curve_number_adj_pct"] = 10
     cfg["field"] = fld or None
-    cfg["fallow_field"] = ({"mulches": True, "mulch_pct": 60, "f_mulch": 0.5} if rng.random() < 0.1 else None)
+    cfg["fallow_field"] = force["fallow_field"] if "fallow_field" in force else ({"mulches": True, "mulch_pct": 60, "f_mulch": 0.5} if rng.random() < 0.1 else None)
     # groundwater
     gw = force["gw"] if "gw" in force else rng.random() < 0.2
     if gw:
